@@ -1,1 +1,1 @@
-from . import gates, removes, merge, vclock, mvreg, ctx, counters, seqmerkle, validation, reset_serde, access, coverage, index  # noqa
+from . import gates, removes, merge, vclock, mvreg, ctx, counters, seqmerkle, validation, reset_serde, access, coverage  # noqa
